@@ -733,45 +733,63 @@ func backwardThroughFields(w *World, v ssa.Value, s *srcSet, seen map[ssa.Value]
 // c19Args: the loop over os.Args must account for every argument.
 func c19Args(w *World, r *Result) {
 	rule := "R-C19-args"
+	fromArgs := func(v ssa.Value) bool {
+		src := newSrcSet()
+		backward(v, src, map[ssa.Value]bool{})
+		return src.globals["Args"]
+	}
 	for _, fn := range w.Funcs("main") {
+		// options read two at a time from the argument list: an index advanced by 2 that reads
+		// the list, or the list itself cut by two per cycle (pairs = pairs[2:])
+		var at token.Pos
+		pairLoop := false
 		for _, b := range fn.Blocks {
 			for _, ins := range b.Instrs {
-				// loop condition i < len(args)-1 with step 2 and no remainder check
-				bo, ok := ins.(*ssa.BinOp)
-				if !ok || bo.Op != token.LSS {
-					continue
-				}
-				sub, ok := bo.Y.(*ssa.BinOp)
-				if !ok || sub.Op != token.SUB {
-					continue
-				}
-				lenCall, ok := sub.X.(*ssa.Call)
-				if !ok {
-					continue
-				}
-				if bi, ok := lenCall.Call.Value.(*ssa.Builtin); !ok || bi.Name() != "len" {
-					continue
-				}
-				src := newSrcSet()
-				backward(lenCall.Call.Args[0], src, map[ssa.Value]bool{})
-				if !src.globals["Args"] {
-					continue
-				}
-				// is len(args) tested for parity / remainder anywhere in the function?
-				parity := false
-				for _, b2 := range fn.Blocks {
-					for _, i2 := range b2.Instrs {
-						if m, ok := i2.(*ssa.BinOp); ok && m.Op == token.REM {
-							parity = true
+				switch x := ins.(type) {
+				case *ssa.BinOp:
+					if x.Op != token.ADD || !isConstInt(x.Y, 2) {
+						continue
+					}
+					ph, ok := x.X.(*ssa.Phi)
+					if !ok || ph.Referrers() == nil {
+						continue
+					}
+					for _, ref := range *ph.Referrers() {
+						switch y := ref.(type) {
+						case *ssa.IndexAddr:
+							if fromArgs(y.X) {
+								pairLoop, at = true, x.Pos()
+							}
+						}
+					}
+				case *ssa.Slice:
+					if x.Low != nil && isConstInt(x.Low, 2) && x.High == nil {
+						if _, isPhi := x.X.(*ssa.Phi); isPhi && fromArgs(x.X) {
+							pairLoop, at = true, x.Pos()
 						}
 					}
 				}
-				if parity {
-					r.Ok(rule, "args:pair-loop", w.Pos(bo.Pos()), "option pairs: an odd argument count is detected")
-				} else {
-					r.Bad(rule, "args:pair-loop", w.Pos(bo.Pos()), "options are read in pairs up to len(args)-1 with no check of the remainder: a trailing unpaired argument (e.g. a forgotten value after -t) is silently ignored instead of being reported as a bad option")
-				}
 			}
+		}
+		if !pairLoop {
+			continue
+		}
+		// is the length of the argument list (or of what is left of it) tested for a remainder,
+		// with the odd case ending the command?
+		parity := false
+		for _, b2 := range fn.Blocks {
+			for _, i2 := range b2.Instrs {
+				m, ok := i2.(*ssa.BinOp)
+				if !ok || m.Op != token.REM || !isConstInt(m.Y, 2) || !fromArgs(m.X) {
+					continue
+				}
+				parity = true
+			}
+		}
+		if parity {
+			r.Ok(rule, "args:pair-loop", w.Pos(at), "option pairs: an odd argument count is detected")
+		} else {
+			r.Bad(rule, "args:pair-loop", w.Pos(at), "options are read in pairs with no check of the remainder: a trailing unpaired argument (e.g. a forgotten value after -t) is silently ignored instead of being reported as a bad option")
 		}
 	}
 }
